@@ -312,10 +312,17 @@ func vfC05Run(t *testing.T, res *vfResult, c vfC05Case) {
 	for _, m := range muts {
 		e0 := len(n.Emissions(receiver.Name))
 		r0 := len(receiver.ReadsSnapshot())
+		// what the connection would export about the records it has received (ConnectionState is a copy of it)
+		st0, _ := receiver.Conn.ConnectionState()
 		n.Deliver(string(receiver.EP.addr), m.Data, vfAddrOf(sender.Name))
 		synctest.Wait()
 		emitted := len(n.Emissions(receiver.Name)) - e0
 		delivered := len(receiver.ReadsSnapshot()) - r0
+		if st1, ok := receiver.Conn.ConnectionState(); ok && !m.Exempt && st1.acceptedRemoteSequence != st0.acceptedRemoteSequence {
+			res.Violate("C05:forgery-left-a-trace-in-exported-state:"+sigBase,
+				fmt.Sprintf("%s: a non-authentic record (%s) changed the connection's exportable state: highest accepted record number %d -> %d", c.ID(), m.Class, st0.acceptedRemoteSequence, st1.acceptedRemoteSequence),
+				map[string]any{"case": c.ID(), "mutant": vfHex(m.Data[:min(len(m.Data), 200)])})
+		}
 		res.Count("mutants_injected", 1)
 		if m.Exempt {
 			res.Count("mutants_exempt", 1)
